@@ -130,3 +130,49 @@ Example shared_constants_in_list_refuted :
     (FAnd (FAtom (LField FName) (AIn tok_in [literal_full [98]; lit_a])) (FAtom (LField FDescr) (AIContains tok_icontains lit_a)))
     (mkRow (Some [97]) (Some [97]) [] []) = true.
 Proof. vm_compute. split; reflexivity. Qed.
+
+(* ---- in-lists by length and order ---- *)
+(* a reading that is NOT the code's: the constants of the list (in listener order = reverse of the source order) are
+   extracted once, SORTED when there are more than [tsort] of them, and SEARCHED as an ascending sequence (the search gives
+   up at the first constant above the value) when there are at least [tsearch] of them.  With tsort = tsearch it is the
+   membership test; with tsort = tsearch = 8 as `>` and `>=` a list of exactly 8 literals is searched unsorted *)
+Fixpoint c11_insert (x : str) (l : list str) : list str :=
+  match l with
+  | [] => [x]
+  | y :: r => if str_leb x y then x :: l else y :: c11_insert x r
+  end.
+Definition c11_sort (l : list str) : list str := fold_right c11_insert [] l.
+Fixpoint c11_search_ascending (x : str) (l : list str) : bool :=
+  match l with
+  | [] => false
+  | y :: r => match str_cmp x y with Eq => true | Lt => false | Gt => c11_search_ascending x r end
+  end.
+Definition in_list_presorted (tsort tsearch : nat) (vals : list str) (x : str) : bool :=
+  let consts := rev (map parse_zql_string (map literal_full vals)) in
+  let consts := if Nat.ltb tsort (length consts) then c11_sort consts else consts in
+  if Nat.leb tsearch (length consts) then c11_search_ascending x consts else existsb (str_eqb x) consts.
+
+Definition c11_letters (n : nat) : list str := map (fun k => [97 + N.of_nat k]) (seq 0 n).   (* "a"; "b"; ... *)
+
+(* non-vacuity: lists of 1..20 single letters written ascending, descending (rev) - every literal selects its value, a
+   value that is not in the list is not selected *)
+Example in_lists_of_all_lengths :
+  forallb (fun n => forallb (fun l => forallb (fun x => in_query tok_in (map literal_full l) (Some x)) l
+                                      && negb (in_query tok_in (map literal_full l) (Some [122])))
+                            [c11_letters n; rev (c11_letters n)])
+          (seq 1 20) = true.
+Proof. vm_compute. reflexivity. Qed.
+
+(* the disagreeing thresholds: refuted by the 8 letters a..h written in ascending order (none of them is found), while
+   with 7 or 9 letters - and with every list of up to 4 literals, all that streams Q / M wrote before - the reading
+   cannot be told from the code *)
+Example in_list_presorted_refuted :
+  exists vals x, in_list_presorted 8 8 vals x <> in_query tok_in (map literal_full vals) (Some x).
+Proof. exists (c11_letters 8), [97]. vm_compute. discriminate. Qed.
+
+Example in_list_presorted_needs_exactly_eight :
+  forallb (fun n => forallb (fun l => forallb (fun x => Bool.eqb (in_list_presorted 8 8 l x) (in_query tok_in (map literal_full l) (Some x)))
+                                               ([122] :: l))
+                            [c11_letters n; rev (c11_letters n)])
+          [1; 2; 3; 4; 5; 6; 7; 9; 10; 16; 17]%nat = true.
+Proof. vm_compute. reflexivity. Qed.
